@@ -237,7 +237,7 @@ impl<I: Interner> RenderAsRust<I> for TraitDatum<I> {
                 WellKnownTrait::Coroutine => "coroutine",
                 WellKnownTrait::DispatchFromDyn => "dispatch_from_dyn",
                 WellKnownTrait::Tuple => "tuple_trait",
-                WellKnownTrait::Pointee => "pointee",
+                WellKnownTrait::Pointee => "pointee_trait",
                 WellKnownTrait::FnPtr => "fn_ptr_trait",
                 WellKnownTrait::Future => "future",
             };
